@@ -73,7 +73,7 @@ Next ==
      \/ /\ \E p \in Picts(oss) : ~GridOnly /\ HasData(oss, p) /\ ~oss.hand[p].linked /\ Step([Op("Open") EXCEPT !.p = p]) /\ UNCHANGED <<nextPict, nextSrc>>
      \/ /\ \E p \in Picts(oss) : ~GridOnly /\ HasData(oss, p) /\ Step([Op("Save") EXCEPT !.p = p]) /\ UNCHANGED <<nextPict, nextSrc>>
      \/ /\ \E p \in DOMAIN oss.oper, t \in {<<"merge", -1>>, <<"synt", 0>>, <<"synt", 1>>, <<"synt", 2>>, <<"synt", -1>>, <<"merge", 0>>} :
-             ~GridOnly /\ (t[2] = 1 => (BothBases(p) \/ IsLabelled)) /\ (t[2] = 2 => IsLabelled) /\ (t \in {<<"synt", -1>>, <<"merge", 0>>} => Structural) /\ Step(IF_(p, t[1], t[2]))
+             ~GridOnly /\ ~(HasData(oss, p) /\ NamedByChildTable(oss, p)) /\ (t[2] = 1 => (BothBases(p) \/ IsLabelled)) /\ (t[2] = 2 => IsLabelled) /\ (t \in {<<"synt", -1>>, <<"merge", 0>>} => Structural) /\ Step(IF_(p, t[1], t[2]))
         /\ UNCHANGED <<nextPict, nextSrc>>
      \/ /\ \E p \in DOMAIN oss.oper : HasData(oss, p) /\ ~DataOf(oss, p).locked /\ Preset \in {"chain", "stale"}
              /\ Step([Op("Lock") EXCEPT !.p = p]) /\ UNCHANGED <<nextPict, nextSrc>>
@@ -81,7 +81,8 @@ Next ==
      \/ /\ ~GridOnly /\ DOMAIN oss.oper # {} /\ Step(Op("ExecuteAll")) /\ UNCHANGED <<nextPict, nextSrc>>
      \* save the document, close everything, load it with the items rotated by n, re-open the sources
      \/ /\ Picts(oss) # {} /\ AllSaved(oss) /\ (IF hist = <<>> THEN TRUE ELSE hist[Len(hist)].op # "Reload")
-        /\ \E n \in {0, 1, 2} : Step([Op("Reload") EXCEPT !.n = n]) /\ UNCHANGED <<nextPict, nextSrc>>
+        \* n: items rotated by n mod 3; from 3 on the connections are interleaved as well
+        /\ \E n \in {0, 1, 2, 4} : Step([Op("Reload") EXCEPT !.n = n]) /\ UNCHANGED <<nextPict, nextSrc>>
 Spec == Init /\ [][Next]_vars
 
 \* ---- what is emitted: the calls (prefix and history) and the predicted state after the last call and after a final SaveAll
